@@ -271,6 +271,13 @@ class TD:
         return f"<TD {self.name}#{self.uid} {sorted(self.cells)}>"
 
 
+class Tup:
+    """A Python tuple holding at least one non-symbolic object (a TD or a closure)."""
+
+    def __init__(self, items):
+        self.items = list(items)
+
+
 class Closure:
     def __init__(self, node, frame):
         self.node = node
@@ -393,6 +400,8 @@ class Interp:
             return mk("tdref", v.name, v.uid)
         if isinstance(v, Closure):
             return mk("closure", getattr(v.node, "name", "<lambda>"), tag=id(v.node))
+        if isinstance(v, Tup):
+            return mk("tuple", *[self.as_sym(x) for x in v.items])
         if isinstance(v, (list, tuple)):
             return mk("tuple", *[self.as_sym(x) for x in v])
         return const(v) if isinstance(v, (int, float, str, bool, type(None))) else mk("unknown", repr(v))
@@ -559,6 +568,15 @@ class Interp:
         for cond, val in reversed(fr.returns[:-1]):
             if val is res:
                 continue
+            if isinstance(val, Tup) and isinstance(res, Tup) and len(val.items) == len(res.items):
+                items = []
+                for a, b in zip(val.items, res.items):
+                    if a is b or not (isinstance(a, S) and isinstance(b, S)):
+                        items.append(b if not isinstance(a, TD) else a)
+                    else:
+                        items.append(mk("phi", cond if cond is not None else mk("unknown", "path"), a, b))
+                res = Tup(items)
+                continue
             if isinstance(val, S) and isinstance(res, S) and cond is not None:
                 res = mk("phi", cond, val, res)
             elif isinstance(val, TD) and isinstance(res, TD):
@@ -711,6 +729,9 @@ class Interp:
     def assign(self, target, val, st):
         if isinstance(target, ast.Name):
             self.set_name(target.id, val)
+        elif isinstance(target, (ast.Tuple, ast.List)) and isinstance(val, Tup) and len(val.items) == len(target.elts) and not any(isinstance(e, ast.Starred) for e in target.elts):
+            for e, v in zip(target.elts, val.items):
+                self.assign(e, v, st)
         elif isinstance(target, (ast.Tuple, ast.List)):
             n = len(target.elts)
             vs = self.sym(val) if not isinstance(val, (list,)) else None
@@ -1091,7 +1112,10 @@ class Interp:
         )
 
     def ex_Tuple(self, n):
-        return mk("tuple", *[self.sym(self.eval(e)) for e in n.elts])
+        vals = [self.eval(e) for e in n.elts]
+        if any(isinstance(v, (TD, Closure, Tup)) for v in vals):
+            return Tup(vals)
+        return mk("tuple", *[self.sym(v) for v in vals])
 
     def ex_List(self, n):
         return mk("list", *[self.sym(self.eval(e)) for e in n.elts])
@@ -1373,6 +1397,8 @@ class Interp:
     def _run_frame(self, fr: Frame, body, n, nograd):
         self.frames.append(fr)
         self.call_frames.append(fr)
+        fr.entry_cells = {td.uid: dict(td.cells) for td in self.tds}
+        fr.entry_conds = tuple(self.conds)
         ev = self.emit("call-enter", n, fr)
         if nograd:
             self.nograd_depth += 1
@@ -1550,4 +1576,8 @@ def final_td(it: Interp, fr: Frame) -> Optional[TD]:
     for cond, v in fr.returns:
         if isinstance(v, TD):
             return v
+        if isinstance(v, Tup):
+            for x in v.items:
+                if isinstance(x, TD):
+                    return x
     return None
